@@ -5,7 +5,7 @@
    tables (chains, diamonds, self references) and ANY actions. *)
 From Coq Require Import List ZArith Bool.
 Import ListNotations.
-From GMS Require Import Store.C18FK Store.C18FKProofs.
+From GMS Require Import Store.C18FK Store.C18FKProofs Store.C18FKCascade.
 Open Scope Z_scope.
 
 (* INSERT: every declared key is checked (CheckReference); a successful insert keeps referential integrity *)
@@ -39,13 +39,39 @@ Theorem C18_ri_checker_correct : forall fks d, ri_ok fks d = true <-> RI fks d.
 Proof. exact ri_ok_spec. Qed.
 Print Assumptions C18_ri_checker_correct.
 
-(* PARTIAL.  The full statement
-     forall fks d s d', RI fks d -> exec_res fks d s = Ok d' -> RI fks d'
-   is proved above for INSERT, for UPDATE of a key column and for DELETE under RESTRICT / NO ACTION.  Not proved: DELETE and
-   UPDATE of a parent id through CASCADE / SET NULL chains (induction on the cascade fuel with the invariant "integrity
-   except for references to the rows being removed") and cascade_exact.  For those the model is tied to the engine and
-   to an independent reachability fixpoint only by the correspondence.  The example below runs a cascade through a
-   diamond with a self reference and checks integrity by computation. *)
+(* THE MAIN THEOREM.  For EVERY foreign key graph (chains, diamonds, cycles, self references), every assignment of
+   RESTRICT / NO ACTION / CASCADE / SET NULL and every statement of the model - INSERT, DELETE that cascades to any depth,
+   UPDATE of a parent id that cascades, UPDATE of a key column - a statement that succeeds on a database with unique
+   primary keys and referential integrity leaves unique primary keys and referential integrity.  Induction on the
+   cascade fuel; running out of fuel is the depth-limit error, and an error has no effect (C18_failed_statement_no_effect). *)
+Theorem C18_ri_preserved :
+  forall fks d s d', uniq d -> RI fks d -> exec_res fks d s = Ok d' -> RI fks d' /\ uniq d'.
+Proof. exact ri_preserved. Qed.
+Print Assumptions C18_ri_preserved.
+
+(* hence after ANY history of statements, from any database with integrity - in particular from the empty one *)
+Theorem C18_ri_invariant_all_histories :
+  forall fks h d, uniq d -> RI fks d -> RI fks (run fks d h) /\ uniq (run fks d h).
+Proof. exact ri_invariant. Qed.
+Print Assumptions C18_ri_invariant_all_histories.
+
+Theorem C18_ri_from_empty : forall fks n h, RI fks (run fks (repeat [] n) h).
+Proof. exact ri_from_empty. Qed.
+Print Assumptions C18_ri_from_empty.
+
+(* the prescribed child changes, as far as proved: a cascading DELETE only removes rows and sets key columns to NULL
+   (every surviving row is an original row, same id, each key column unchanged or NULL; primary keys stay unique), the
+   deleted row is gone, and every row that disappeared is referenced by nobody afterwards *)
+Theorem C18_cascade_delete_only_removes_or_nulls :
+  forall fks n d t r d', uniq d -> del n fks d t r = Ok d' ->
+    (sub_db d' d /\ uniq d' /\ B fks d d') /\ gone d' t (rid r).
+Proof. exact del_ok_all. Qed.
+Print Assumptions C18_cascade_delete_only_removes_or_nulls.
+
+(* PARTIAL.  cascade_exact - equality of the result with the reference fixpoint (delete the set reachable through CASCADE
+   keys, NULL the SET NULL frontier, fail iff a RESTRICT key is hit) - is NOT proved; the statement above gives its
+   "nothing else changes" half, the driver's independent fixpoint checks the rest on the engine.  The example below
+   runs a cascade through a diamond with a self reference. *)
 Example C18_cascade_example_partial :
   run ex_fks [[]; []; []] ex_h = [[]; []; [(21, None, None)]] /\
   ri_ok ex_fks (run ex_fks [[]; []; []] (firstn 5 ex_h)) = true /\
